@@ -2,7 +2,8 @@ import Cpppo.Model.Wire
 import Cpppo.Model.Forwards
 /-! driver: `fwd <op;op;…>` (Connection Manager level) / `fwdwire <op;op;…>` (frames through `logix.process`)
    — one answer per op joined by `;`, then `|` and the final table in dict order
-  o:<host>:<port>:<cid>:<serial>:<p|r>   Forward Open (target PCCC @0xA6/1 | Message Router @2/1)
+  o:<host>:<port>:<cid>:<serial>:<p|r>[:t] Forward Open (target PCCC @0xA6/1 | Message Router @2/1; `:t` = O->T Point-to-Point,
+                                         the ID is the one the target picked)
   c:<host>:<port>:<serial>               Forward Close
   e:<host>:<port>                        the session's connection ended
   s:<host>:<port>:<cid>:<d|g>            Connected request (DF1 command | CIP Get Attributes All)
@@ -15,6 +16,9 @@ def commands : List String := ["fwd", "fwdwire"]
 def parseOp (s : String) : Option Op :=
   match s.split (· == ':') |>.toList.map (·.toString) with
   | ["o", h, p, c, sr, t] => do
+    let tgt ← (if t = "p" then some Target.pccc else if t = "r" then some Target.router else none)
+    pure (.fopen ⟨← h.toNat?, ← p.toNat?⟩ (← c.toNat?) (← sr.toNat?) tgt)
+  | ["o", h, p, c, sr, t, _pick] => do   -- the O->T ID was picked by the target (Point-to-Point): `c` is the ID it picked
     let tgt ← (if t = "p" then some Target.pccc else if t = "r" then some Target.router else none)
     pure (.fopen ⟨← h.toNat?, ← p.toNat?⟩ (← c.toNat?) (← sr.toNat?) tgt)
   | ["c", h, p, sr] => do pure (.fclose ⟨← h.toNat?, ← p.toNat?⟩ (← sr.toNat?))
